@@ -376,8 +376,8 @@ Import(items, enforce, names, dev) ==
         ELSE IF enforce /\ ~s2.cm.upd.has THEN [bad EXCEPT !.err = "legacy-without-bf3update"]
         ELSE LET srt == SelectSeq(s2.comps, LAMBDA c : c.desc.type = 0) \o SelectSeq(s2.comps, LAMBDA c : c.desc.type = 1)
                         \o SelectSeq(s2.comps, LAMBDA c : c.desc.type = 2)
-                 errs == {CompCommentErr(srt[i].desc, names) : i \in 1..Len(srt)} \ {""}
-             IN  IF errs # {} THEN [bad EXCEPT !.err = CHOOSE e \in errs : TRUE]
+                 errs == {i \in 1..Len(srt) : CompCommentErr(srt[i].desc, names) # ""}
+             IN  IF errs # {} THEN [bad EXCEPT !.err = CompCommentErr(srt[CHOOSE i \in errs : \A j \in errs : i <= j].desc, names)]
                  ELSE [err |-> "",
                        comps |-> Mat([i \in 1..Len(srt) |-> [desc |-> DescSeq(srt[i].desc), ids |-> srt[i].ids]], Len(srt)),
                        comments |-> (IF s2.cm.fid.has THEN {<<K_FwId, s2.cm.fid.text>>, <<K_FwVer, s2.cm.fver.text>>} ELSE {})
